@@ -121,6 +121,27 @@ M = [
   "            let is_head = std::ptr::eq(tail, prev);", "            let is_head = std::ptr::eq(tail, prev) || true;", "C19", 20000),
  ("M23 atomic_dur: truncating milliseconds again", "src/sync/atomic_dur.rs",
   "        let ms = d.as_nanos().div_ceil(1_000_000);", "        let ms = d.as_nanos() / 1_000_000;", "C08", 6000),
+ ("M52 io: socket read subscribe without the io_flag re-check", "src/io/sys/unix/net/socket_read.rs", '        if io_data.io_flag.load(Ordering::Acquire) != 0 {', '        if false && io_data.io_flag.load(Ordering::Acquire) != 0 {', "C17", 20000),
+ ("M53 io: socket write subscribe without the io_flag re-check", "src/io/sys/unix/net/socket_write.rs", '        if io_data.io_flag.load(Ordering::Acquire) != 0 {', '        if false && io_data.io_flag.load(Ordering::Acquire) != 0 {', "C17", 20000),
+ ("M54 io: selector sets io_flag only when it found a coroutine", "src/io/sys/unix/epoll.rs",
+  "            data.io_flag.fetch_or(events, Ordering::Release);\n\n            // first check the atomic co, this may be grab by the worker first\n            let co = match data.co.take() {\n                Some(co) => co,\n                None => continue,\n            };",
+  "            // first check the atomic co, this may be grab by the worker first\n            let co = match data.co.take() {\n                Some(co) => co,\n                None => continue,\n            };\n            data.io_flag.fetch_or(events, Ordering::Release);", "C17", 20000),
+ ("M55 io: tcp accept subscribe without the io_flag re-check", "src/io/sys/unix/net/tcp_listener_accept.rs", '        if io_data.io_flag.load(Ordering::Acquire) != 0 {', '        if false && io_data.io_flag.load(Ordering::Acquire) != 0 {', "C17", 20000),
+ ("M56 io: selector does not disarm the io timer of a completed operation", "src/io/sys/unix/epoll.rs",
+  "                    h.with_mut_data(|value| value.data.event_data = std::ptr::null_mut());\n                }\n                h.remove()",
+  "                    h.with_mut_data(|_value| ());\n                }\n                h.remove()", "C18", 20000),
+ ("M59 io: socket read subscribe without the cancel re-check", "src/io/sys/unix/net/socket_read.rs",
+  "            if cancel.is_canceled() {\n                unsafe { cancel.cancel() };\n            }",
+  "            if false && cancel.is_canceled() {\n                unsafe { cancel.cancel() };\n            }", "C18", 40000),
+ ("M63 io: udp recv_from subscribe without the io_flag re-check", "src/io/sys/unix/net/udp_recv_from.rs", '        if io_data.io_flag.load(Ordering::Acquire) != 0 {', '        if false && io_data.io_flag.load(Ordering::Acquire) != 0 {', "C17", 20000),
+ ("M64 io: unix accept subscribe without the io_flag re-check", "src/io/sys/unix/net/unix_listener_accept.rs", '        if io_data.io_flag.load(Ordering::Acquire) != 0 {', '        if false && io_data.io_flag.load(Ordering::Acquire) != 0 {', "C17", 20000),
+ ("M65 io: wait_io subscribe without the io_flag re-check", "src/io/sys/unix/wait_io.rs", '        if io_data.io_flag.load(Ordering::Acquire) != 0 {', '        if false && io_data.io_flag.load(Ordering::Acquire) != 0 {', "C17", 40000),
+ ("M66 io: io timer armed with the time-out rounded down to whole ms", "src/io/sys/unix/epoll.rs",
+  "        let (h, b_new) = self.vec[id].timer_list.add_timer(timeout, io.timer_data());",
+  "        let (h, b_new) = self.vec[id].timer_list.add_timer(Duration::from_millis(timeout.as_millis() as u64), io.timer_data());", "C18", 20000),
+ ("M67 io: fast_schedule does not disarm the io timer", "src/io/sys/unix/mod.rs",
+  "    pub fn fast_schedule(&self) {\n        let co = match self.co.take() {\n            Some(co) => co,\n            None => return, // it's already take by selector\n        };\n\n        // tell the timer function not to cancel the io. the entry can't be removed here:\n        // this is not the selector thread that consumes the timer list, and only the\n        // consumer may unlink entries, so it stays there disarmed until it expires\n        #[cfg(feature = \"io_timeout\")]\n        if let Some(h) = self.timer.borrow_mut().take() {",
+  "    pub fn fast_schedule(&self) {\n        let co = match self.co.take() {\n            Some(co) => co,\n            None => return, // it's already take by selector\n        };\n\n        #[cfg(feature = \"io_timeout\")]\n        if let Some(h) = None::<TimerHandle> {", "C18", 40000),
 ]
 
 def run(cmd, **kw):
